@@ -43,7 +43,7 @@ def gen_hbclose(rnd):
 
 class Driver(concdrv.ConcMixin):
     PID = 'C12'
-    CONC = [('hbclose', gen_hbclose, 'conc_hb_close_ok', 40, 600)]
+    CONC = [('hbclose', gen_hbclose, 'conc_hb_close_ok', 100, 1000)]
     LINE_P = [0.05, 0.15, 0.3]
     MODEL_TARGETS = ['Model/Heartbeat.vo']
     SPEC = dict(header='From AV Require Import Lib.Base Model.Heartbeat.\n'
